@@ -95,7 +95,12 @@ func c11Run(t c11Task) (res c11Result) {
 	case "fault":
 		nb := c11Spec(t.PayLen+5, 3).Build()
 		nenc, _ := gen.Ser(&nb)
-		r := vh.Faulty(b, t.M, t.Mode, t.K, nb)
+		var r vh.TransferResult
+		if t.Mode == "stall" {
+			r = vh.Faulty(b, t.M, t.Mode, t.K) // the peer never reads again: no follow-up transfer
+		} else {
+			r = vh.Faulty(b, t.M, t.Mode, t.K, nb)
+		}
 		res.NSegs = len(r.Segs)
 		// the transfer after the failed one, on the same manager with a well-behaved peer
 		if r.NextRan && r.Hang == "" {
@@ -226,7 +231,7 @@ func runC11(r *ev.Run, thorough bool) int {
 				continue
 			}
 			for k := 0; k <= total && k < 40; k++ {
-				for _, mode := range []string{"silent", "refuse0", "refuse1", "refuse2", "refuse3", "refuse4", "refuse5", "refuse6", "close", "short", "zero"} {
+				for _, mode := range []string{"silent", "stall", "refuse0", "refuse1", "refuse2", "refuse3", "refuse4", "refuse5", "refuse6", "close", "short", "zero"} {
 					tasks = append(tasks, c11Task{Kind: "fault", PayLen: p, M: uint64(m), Mode: mode, K: k})
 				}
 			}
